@@ -81,7 +81,12 @@ var c01Metas = func() []c01Meta {
 	p[0] = color.RGBA{0x30, 0x66, 0x07, 0x80}
 	p[1] = color.RGBA{0x40, 0x40, 0x40, 0x40}
 	p[5] = color.RGBA{0xff, 0xff, 0xff, 0xff}
-	return []c01Meta{{ivg.DefaultViewBox, ivg.DefaultPalette}, {domVB[2], ivg.DefaultPalette}, {ivg.DefaultViewBox, p}, {domVB[3], p}}
+	// a palette whose chunk needs a two-byte length: 64 entries that need four bytes each
+	long := ivg.DefaultPalette
+	for i := range long {
+		long[i] = color.RGBA{uint8(i), uint8(2 * i), uint8(i / 2), 0x80 + uint8(i)}
+	}
+	return []c01Meta{{ivg.DefaultViewBox, ivg.DefaultPalette}, {domVB[2], ivg.DefaultPalette}, {ivg.DefaultViewBox, p}, {domVB[3], p}, {domVB[2], long}}
 }()
 
 type c01Case struct {
@@ -129,7 +134,7 @@ func c01StructDepth(tier string) int {
 	return 4
 }
 
-var c01RunLens = []int{1, 2, 15, 16, 17, 31, 32, 33, 47, 48, 49, 64, 65}
+var c01RunLens = []int{1, 2, 15, 16, 17, 31, 32, 33, 47, 48, 49, 64, 65, 255, 256, 257, 513}
 
 func c01Units(tier string) (structU, runU, valU, convU int) {
 	return len(c01L) * len(c01L), 1, 4, len(genUnits(tier))
@@ -139,8 +144,8 @@ func init() {
 	mc.Register(&mc.Check{
 		ID:    "C01",
 		Level: "model_checking",
-		Rule: "forward: (S) every protocol-respecting history of <=4 (thorough <=5) calls over a 49-letter alphabet (all 28 mutating Destination methods, ADJ 0..6 and increment forms, 8 colour kinds, 4 number forms, selector read-backs), closed with the shortest suffix, x {low,high} resolution x 4 metadata, encoded by a real Encoder and decoded by the real decoder; " +
-			"run lengths {1,2,15,16,17,31,32,33,47,48,49,64,65} of each of the 20 argument-carrying drawing verbs x 4 run terminators; (P) every value of an 87-element float32 boundary list in every argument position of every method, all pairs for 2-argument methods, all colour classes, viewBox pairs. " +
+		Rule: "forward: (S) every protocol-respecting history of <=4 (thorough <=5) calls over a 49-letter alphabet (all 28 mutating Destination methods, ADJ 0..6 and increment forms, 8 colour kinds, 4 number forms, selector read-backs), closed with the shortest suffix, x {low,high} resolution x 5 metadata, encoded by a real Encoder and decoded by the real decoder; " +
+			"run lengths {1,2,15,16,17,31,32,33,47,48,49,64,65,255,256,257,513} of each of the 20 argument-carrying drawing verbs x 4 run terminators; (P) every value of an 87-element float32 boundary list in every argument position of every method, all pairs for 2-argument methods, all colour classes, viewBox pairs. " +
 			"converse: every stream of engines B+F that the decoder accepts is transcoded through an Encoder at both resolutions until the byte string repeats (<=8 rounds), each round compared with the original decode. " +
 			"Comparator: operations, order, ADJ, increment, arc flags, colours bit-exact; numbers: nearest 1/64 (low-res in [-128,128)), unchanged if exactly representable in a short form or in the 4-byte form, else <=4 ulp, sign/infinity kept, NaN stays non-finite, angles modulo one turn. " +
 			"states = histories executed in the structural exploration, transitions = calls executed; non-trivial = round trip containing at least one drawing operation",
@@ -229,17 +234,25 @@ func (st *c01State) forward(calls []rec.Call, hires bool, meta int, desc string)
 	w.Count("forward", 1)
 	m := &c01Metas[meta]
 	e := &st.enc
-	// The Encoder is reused from case to case, and was last abandoned inside a path with a run
-	// of operations pending (as after a Decode into it that failed mid-path): Reset starts afresh.
-	e.StartPath(0, 1, 1)
-	e.RelHLineTo(3)
-	e.RelHLineTo(4)
-	if meta == 0 && len(calls)%2 == 1 {
-		// default metadata: every other history runs on a zero-value Encoder that is never
-		// Reset and whose resolution flag is set before its first call
+	// Three kinds of object, alternating from case to case: the Encoder of the previous case,
+	// abandoned inside a path with a run of operations pending (as after a Decode into it that
+	// failed mid-path) and then Reset; a fresh one; a zero-value one that is never Reset.
+	switch variant := (len(calls) + meta) % 3; {
+	case variant == 1 && meta == 0:
+		// default metadata: a zero-value Encoder that is never Reset and whose resolution flag
+		// is set before its first call
 		st.enc = encode.Encoder{}
 		e.HighResolutionCoordinates = hires
-	} else {
+	case variant == 1 || variant == 2 && meta%2 == 1:
+		// a fresh Encoder, Reset once
+		st.enc = encode.Encoder{}
+		e.Reset(m.vb, m.pal)
+		e.HighResolutionCoordinates = hires
+	default:
+		// the Encoder of the previous case, abandoned inside a path with a run pending
+		e.StartPath(0, 1, 1)
+		e.RelHLineTo(3)
+		e.RelHLineTo(4)
 		e.Reset(m.vb, m.pal)
 		e.HighResolutionCoordinates = hires
 	}
